@@ -10,6 +10,7 @@ import (
 	"os"
 	"sync"
 
+	"verifharness/drivers/hsd"
 	"verifharness/drivers/mux"
 	"verifharness/drivers/reg"
 	"verifharness/drivers/roots"
@@ -26,6 +27,9 @@ type famFn func(in, out string, seed int64, par int, tier string) error
 var families = map[string]famFn{
 	"reg": func(in, out string, seed int64, par int, tier string) error {
 		return runFamily(in, out, seed, par, reg.Run, func(b reg.Behaviour) string { return b.Id })
+	},
+	"hsd": func(in, out string, seed int64, par int, tier string) error {
+		return runFamily(in, out, seed, par, hsd.Run, func(b hsd.Behaviour) string { return b.Id })
 	},
 	"mux": func(in, out string, seed int64, par int, tier string) error {
 		return runFamily(in, out, seed, par, mux.Run, func(b mux.Instance) string { return b.Id })
